@@ -426,6 +426,26 @@ func main() {
 		{goName: "StaticHandler", leanName: "staticHandlerNew", file: "wasp/auth/static.go",
 			frag: &impFrag{results: []string{"staticHandler", "error"}}},
 	})
+	// the per-session filter list. The view of Session is its `topics` field only (the connection, the
+	// will, the identifiers are outside the subset and never touched by the two methods); a filter
+	// ([]byte) is an immutable value rendered as List Char, like the topics of Translated.lean.
+	sessionLit := translateImperativeCfg(impConfig{
+		rel: "wasp/sessions/session.go", namespace: "Wasp.Generated.SessionLit", ext: true,
+		byteElems: true, bytesLean: "List Char",
+		dropFields: []string{"Session.id", "Session.conn", "Session.clientID", "Session.mountPoint", "Session.lwt",
+			"Session.keepaliveInterval", "Session.Disconnected", "Session.transport"},
+	}, []impSpec{
+		{recvType: "Session", goName: "AddTopic", leanName: "addTopic", fuel: "len(s.topics)"},
+		{recvType: "Session", goName: "RemoveTopic", leanName: "removeTopic", fuel: "len(s.topics)"},
+	})
+	// the mount-point prefix: here a []byte IS a slice of bytes (made, copied into, written), rendered as
+	// List Char like the topics of Translated.lean, and the mount point (a Go string) is the slice of its bytes
+	sessionMountLit := translateImperativeCfg(impConfig{
+		rel: "wasp/sessions/session.go", namespace: "Wasp.Generated.SessionMountLit", ext: true,
+		byteSlices: true, imports: []string{"Wasp.Model.GoPreludeBytes"},
+	}, []impSpec{
+		{goName: "prefixMountPoint", leanName: "prefixMountPoint", frag: &impFrag{results: []string{"[]char"}}},
+	})
 	// ---- facts
 	extractFacts()
 	extractWiring()
@@ -458,6 +478,8 @@ func main() {
 	write("IdPoolLit.lean", idPoolLit)
 	write("BucketLit.lean", bucketLit)
 	write("AuthLit.lean", authLit)
+	write("SessionLit.lean", sessionLit)
+	write("SessionMountLit.lean", sessionMountLit)
 	fmt.Printf("extract ok: %d facts\n", len(facts))
 }
 
